@@ -4,6 +4,7 @@ import (
 	"fmt"
 	"os"
 	"go/token"
+	"go/types"
 	"regexp"
 	"sort"
 	"strconv"
@@ -269,10 +270,20 @@ func ruleNotExistWrap(w *World, r *Report, rule string) {
 					continue
 				}
 				notExist, known := false, false
+				errIsNil := false
 				for k, chosen := range l.atoms {
 					if isNotExistAtom(l.atomVal[k]) {
 						notExist, known = chosen, true
 					}
+					if bo, ok := l.atomVal[k].(*ssa.BinOp); ok && (bo.Op == token.NEQ || bo.Op == token.EQL) {
+						if (bo.X == ssa.Value(f.Params[1]) && isNilConst(bo.Y)) || (bo.Y == ssa.Value(f.Params[1]) && isNilConst(bo.X)) {
+							errIsNil = chosen == (bo.Op == token.EQL)
+						}
+					}
+				}
+				if errIsNil {
+					// os.IsNotExist(nil) is false: a classification reached only for a nil error never happens
+					notExist, known = false, true
 				}
 				rv := stripMakeInterface(l.ret.Results[0])
 				isWrap := false
@@ -511,6 +522,11 @@ func elemIndexOf(v ssa.Value) ssa.Value {
 // pathAvoiding: is there a way from block `from` (entered from prev) to a Return that passes no instruction for which
 // hit is true? Returns that Return, or nil.
 func pathAvoiding(from *ssa.BasicBlock, hit func(ssa.Instruction) bool) *ssa.Return {
+	return pathAvoidingTo(from, hit, nil)
+}
+
+// pathAvoidingTo: like pathAvoiding, counting only returns that accept approves (nil = all).
+func pathAvoidingTo(from *ssa.BasicBlock, hit func(ssa.Instruction) bool, accept func(*ssa.Return) bool) *ssa.Return {
 	seen := map[*ssa.BasicBlock]bool{}
 	var walk func(b *ssa.BasicBlock) *ssa.Return
 	walk = func(b *ssa.BasicBlock) *ssa.Return {
@@ -523,6 +539,9 @@ func pathAvoiding(from *ssa.BasicBlock, hit func(ssa.Instruction) bool) *ssa.Ret
 				return nil
 			}
 			if ret, ok := in.(*ssa.Return); ok {
+				if accept != nil && !accept(ret) {
+					return nil
+				}
 				return ret
 			}
 			if _, ok := in.(*ssa.Panic); ok {
@@ -1101,4 +1120,1251 @@ func ruleDiffLengthGuard(w *World, r *Report, rule string) {
 		}
 		r.Check(len(bads) == 0, rule, key, w.pos(f.Pos()), "equal lengths -> slot-by-slot comparison; different lengths -> all points of both", name+": "+first+" — copy then writes, and diff lists, every slot (NaN included)")
 	}
+}
+
+// rejectEntry: a comparison of a with b may send the decoder to a failure return only for the listed signs of a-b.
+type rejectEntry struct {
+	a, b    string
+	allowed []int
+	what    string
+}
+
+// ruleRejectsOnlyMalformed: every failure return of f that is directly controlled by a comparison listed in the table
+// fails only for the malformed side of that comparison. Guards not in the table are not judged.
+func ruleRejectsOnlyMalformed(w *World, r *Report, rule string, f *ssa.Function, table []rejectEntry) {
+	key := funcName(f) + ":rejects-only-malformed"
+	idx := errResultIndex(f)
+	if idx < 0 {
+		r.Undecided(rule, key, w.pos(f.Pos()), "no error result")
+		return
+	}
+	var bads []string
+	judged := 0
+	for _, ret := range returnsOf(f) {
+		if !isFreshOrSentinel(ret.Results[idx]) {
+			continue
+		}
+		// the controlling test: the nearest If above the return through single-predecessor blocks
+		b := ret.Block()
+		var test *ssa.BasicBlock
+		var taken *ssa.BasicBlock
+		for i := 0; i < 4 && len(b.Preds) == 1; i++ {
+			p := b.Preds[0]
+			if _, ok := p.Instrs[len(p.Instrs)-1].(*ssa.If); ok {
+				test, taken = p, b
+				break
+			}
+			b = p
+		}
+		if test == nil {
+			continue
+		}
+		cond, neg := stripNot(test.Instrs[len(test.Instrs)-1].(*ssa.If).Cond)
+		bo, ok := cond.(*ssa.BinOp)
+		if !ok || !isCmp(bo.Op) {
+			continue
+		}
+		onTrue := (taken == test.Succs[0]) != neg
+		ex := newExprCtx(w)
+		xs, ys := ex.expr(bo.X), ex.expr(bo.Y)
+		for _, en := range table {
+			flip := 0
+			switch {
+			case xs == en.a && ys == en.b:
+				flip = 1
+			case xs == en.b && ys == en.a:
+				flip = -1
+			default:
+				continue
+			}
+			judged++
+			for sg := -1; sg <= 1; sg++ {
+				if signOK(bo.Op, sg*flip) != onTrue {
+					continue // this sign does not reach the failure
+				}
+				okSign := false
+				for _, a := range en.allowed {
+					if a == sg {
+						okSign = true
+					}
+				}
+				if !okSign {
+					bads = append(bads, fmt.Sprintf("fails at %s when %s %s %s: %s", w.instrPos(ret), en.a, sgs(sg), en.b, en.what))
+				}
+			}
+		}
+	}
+	sort.Strings(bads)
+	first := ""
+	if len(bads) > 0 {
+		first = bads[0]
+	}
+	r.Check(len(bads) == 0, rule, key, w.pos(f.Pos()), fmt.Sprintf("%d failure guards judged: each fails only for malformed input", judged), funcName(f)+" "+first)
+}
+
+// ruleGenerateSumOfFiner (decision diagrams): randomValWithHighSum, evaluated for two finer points, adds exactly the
+// finer values whose truncated time equals t and leaves the loop early only past t; when t is not older than the first
+// finer point the result is that sum alone (no random remainder). In randomPoints the first covered slot is taken
+// from the finer points only when there are some and they start before this archive's until.
+func ruleGenerateSumOfFiner(w *World, r *Report, rule string) {
+	// ---- A: the sum
+	if f := fn(w.Cmd, "randomValWithHighSum"); f == nil || len(f.Params) != 6 {
+		r.Undecided(rule, "cmd.randomValWithHighSum:sum", "-", "randomValWithHighSum not found")
+	} else {
+		const key = "cmd.randomValWithHighSum:sum"
+		tParam, hp := f.Params[0], f.Params[5]
+		const n = 2
+		var addBlock, header, body *ssa.BasicBlock
+		eachInstr(f, func(in ssa.Instruction) {
+			bo, ok := in.(*ssa.BinOp)
+			if !ok || bo.Op != token.ADD {
+				return
+			}
+			for _, o := range []ssa.Value{bo.X, bo.Y} {
+				if strings.HasSuffix(newExprCtx(w).expr(o), ".Value") && elemOfParam(o, hp) {
+					addBlock = bo.Block()
+				}
+			}
+		})
+		var bads []string
+		if addBlock == nil {
+			bads = append(bads, "no finer value is ever added")
+		} else {
+			for b := addBlock; b != nil; b = b.Idom() {
+				if isLoopHeader(b) {
+					header = b
+					break
+				}
+			}
+			if header == nil {
+				bads = append(bads, "the finer values are not added in a loop")
+			} else {
+				for _, s := range header.Succs {
+					if s.Dominates(addBlock) || s == addBlock {
+						body = s
+					}
+				}
+			}
+		}
+		if len(bads) == 0 {
+			e := &ddEngine{w: w, env: lenEnv(f, map[int]int64{5: n}), maxLeafs: 256, concreteAtoms: true}
+			e.run(f)
+			if e.err != nil {
+				bads = append(bads, "cannot evaluate: "+e.err.Error())
+			}
+			usesRand := func(v ssa.Value) bool {
+				found := false
+				var rec func(v ssa.Value, d int)
+				rec = func(v ssa.Value, d int) {
+					if d > 12 || found {
+						return
+					}
+					if c, ok := v.(*ssa.Call); ok && isMethodCall(c, "math/rand", "Rand", "Intn") {
+						found = true
+						return
+					}
+					if _, ok := v.(*ssa.Phi); ok {
+						return
+					}
+					if in, ok := v.(ssa.Instruction); ok {
+						for _, o := range in.Operands(nil) {
+							if *o != nil {
+								rec(*o, d+1)
+							}
+						}
+					}
+				}
+				rec(v, 0)
+				return found
+			}
+			for _, l := range e.leaves {
+				if l.ret == nil || len(l.ret.Results) != 1 {
+					continue
+				}
+				added := map[int]bool{}
+				it, entered := -1, 0
+				for _, b := range l.path {
+					switch b {
+					case header:
+						it++
+					case body:
+						entered++
+					}
+					if b == addBlock && it >= 0 {
+						added[it] = true
+					}
+				}
+				allowed := map[int]map[int]bool{}
+				for i := 0; i < n; i++ {
+					allowed[i] = map[int]bool{-1: true, 0: true, 1: true}
+				}
+				cover := map[int]bool{-1: true, 0: true, 1: true} // sign of t - first finer time
+				okAtoms := true
+				for k, chosen := range l.atoms {
+					v, neg := stripNot(l.atomVal[k])
+					bo, ok := v.(*ssa.BinOp)
+					if !ok || !isCmp(bo.Op) {
+						okAtoms = false
+						bads = append(bads, "a condition other than a comparison with t decides the result ("+k+")")
+						continue
+					}
+					want := chosen != neg
+					isT := func(x ssa.Value) bool { return stripConvert(x) == ssa.Value(tParam) }
+					isTrunc := func(x ssa.Value) bool {
+						c, ok := x.(*ssa.Call)
+						return ok && c.Common().StaticCallee() != nil && funcName(c.Common().StaticCallee()) == "whispertool.Timestamp.Truncate" && elemOfParam(c.Common().Args[0], hp)
+					}
+					isFirst := func(x ssa.Value) bool {
+						s := newExprCtx(w).expr(x)
+						return strings.HasSuffix(s, "[0].Time") && elemOfParam(x, hp)
+					}
+					flip := 0
+					kind := ""
+					switch {
+					case isTrunc(bo.X) && isT(bo.Y):
+						flip, kind = 1, "elem"
+					case isTrunc(bo.Y) && isT(bo.X):
+						flip, kind = -1, "elem"
+					case isT(bo.X) && isFirst(bo.Y):
+						flip, kind = 1, "cover"
+					case isT(bo.Y) && isFirst(bo.X):
+						flip, kind = -1, "cover"
+					default:
+						okAtoms = false
+						bads = append(bads, "a condition other than a comparison with t decides the result ("+k+")")
+						continue
+					}
+					set := cover
+					if kind == "elem" {
+						m := reFirstIndex.FindStringSubmatch(k)
+						if m == nil {
+							okAtoms = false
+							continue
+						}
+						i, _ := strconv.Atoi(m[1])
+						set = allowed[i]
+					}
+					for sg := -1; sg <= 1; sg++ {
+						if signOK(bo.Op, sg*flip) != want {
+							delete(set, sg)
+						}
+					}
+				}
+				if !okAtoms {
+					continue
+				}
+				for i := 0; i < n && i < entered; i++ {
+					if added[i] && !(len(allowed[i]) == 1 && allowed[i][0]) {
+						bads = append(bads, fmt.Sprintf("finer point %d is added although its truncated time may differ from t", i))
+					}
+					if !added[i] && allowed[i][0] {
+						// skipped although it may belong to t — unless an earlier point already lies past t (sorted input)
+						past := false
+						for j := 0; j < i; j++ {
+							if len(allowed[j]) == 1 && allowed[j][1] {
+								past = true
+							}
+						}
+						if !past {
+							bads = append(bads, fmt.Sprintf("finer point %d is not added although its truncated time may equal t", i))
+						}
+					}
+				}
+				if entered < n && entered > 0 {
+					last := entered - 1
+					if !(len(allowed[last]) == 1 && allowed[last][1]) {
+						bads = append(bads, fmt.Sprintf("the loop stops at finer point %d although later points may still belong to t", last))
+					}
+				}
+				if cover[1] && usesRand(l.ret.Results[0]) {
+					bads = append(bads, "a random remainder is added although t may be later than the first finer point (the slot is fully covered, and the number of missing finer slots is negative)")
+				}
+				if usesRand(l.ret.Results[0]) {
+					// the remainder is V + N*Intn(highRndMax+1), N the number of finer slots missing before the first finer point
+					var intn *ssa.Call
+					names := func(x ssa.Value) (string, bool) {
+						if c, ok := x.(*ssa.Call); ok && isMethodCall(c, "math/rand", "Rand", "Intn") {
+							intn = c
+							return "R", true
+						}
+						if _, ok := x.(*ssa.Phi); ok {
+							return "V", true
+						}
+						if bo, ok := x.(*ssa.BinOp); ok && bo.Op == token.QUO {
+							s := strings.ReplaceAll(newExprCtx(w).expr(x), " /:int32 1)", ")")
+							s = strings.ReplaceAll(s, "((", "(")
+							if strings.Contains(s, "whispertool.Timestamp.Sub(p5[0].Time, p0)") && strings.HasSuffix(s, "/:int32 p4.secondsPerPoint)") && strings.Count(s, "/") == 1 {
+								return "N", true
+							}
+							return "?(" + s + ")", true
+						}
+						if bo, ok := x.(*ssa.BinOp); ok && bo.Op == token.ADD && x.Type().String() != "int" {
+							// the accumulated sum itself (v += hp.Value) is one quantity
+							for _, o := range []ssa.Value{bo.X, bo.Y} {
+								if strings.HasSuffix(newExprCtx(w).expr(o), ".Value") && elemOfParam(o, hp) {
+									return "V", true
+								}
+							}
+						}
+						return "", false
+					}
+					got := polyOf(w, l.ret.Results[0], names)
+					want := poly{"V": 1, "N*R": 1}
+					if !got.equal(want) {
+						bads = append(bads, "the value of a partly covered slot is "+got.String()+"; expected V + N*R (V the finer sum, N the finer slots missing before the first finer point, R = Intn(highRndMax+1))")
+					} else if intn != nil {
+						arg := polyOf(w, intn.Common().Args[1], func(x ssa.Value) (string, bool) {
+							if x == ssa.Value(f.Params[2]) {
+								return "H", true
+							}
+							return "", false
+						})
+						if !arg.equal(poly{"H": 1, "": 1}) {
+							bads = append(bads, "the random remainder is drawn from Intn("+arg.String()+"), not Intn(highRndMax+1)")
+						}
+					}
+				}
+			}
+		}
+		sort.Strings(bads)
+		first := ""
+		if len(bads) > 0 {
+			first = bads[0]
+		}
+		r.Check(len(bads) == 0, rule, key, w.pos(f.Pos()), "adds exactly the finer values truncating to t; no remainder for covered slots (decided for two finer points)", "randomValWithHighSum: "+first+" — a coarser slot covered by finer slots no longer equals their sum")
+	}
+	// ---- B: where the covered slots start
+	if f := fn(w.Cmd, "randomPoints"); f == nil || len(f.Params) != 8 {
+		r.Undecided(rule, "cmd.randomPoints:covered-start", "-", "randomPoints not found")
+	} else {
+		const key = "cmd.randomPoints:covered-start"
+		hp := f.Params[2]
+		// the value compared with 0 next to the plain-random choice
+		var start ssa.Value
+		var header *ssa.BasicBlock
+		eachInstr(f, func(in ssa.Instruction) {
+			bo, ok := in.(*ssa.BinOp)
+			if !ok || (bo.Op != token.EQL && bo.Op != token.NEQ) || !inLoopWith(bo.Block()) {
+				return
+			}
+			if k, ok := constInt(bo.Y); ok && k == 0 {
+				if _, isPhi := bo.X.(*ssa.Phi); isPhi {
+					start = bo.X
+				}
+			}
+		})
+		for _, b := range f.Blocks {
+			if isLoopHeader(b) && header == nil {
+				header = b
+			}
+		}
+		var bads []string
+		if start == nil || header == nil {
+			bads = append(bads, "the start of the covered slots (a value tested against 0 inside the loop) was not found")
+		} else {
+			e := &ddEngine{w: w, env: map[ssa.Value]aval{}, maxLeafs: 32, stop: func(b *ssa.BasicBlock) bool { return b == header }}
+			e.run(f)
+			if e.err != nil {
+				bads = append(bads, "cannot evaluate: "+e.err.Error())
+			}
+			sawTrunc := false
+			for _, l := range e.leaves {
+				if l.stop == nil || l.st == nil {
+					continue
+				}
+				a := e.value(l.st, start)
+				isTrunc := false
+				if a.k == kSym && a.sym != nil {
+					if c, ok := a.sym.(*ssa.Call); ok && c.Common().StaticCallee() != nil && funcName(c.Common().StaticCallee()) == "whispertool.Timestamp.Truncate" && elemOfParam(c.Common().Args[0], hp) {
+						isTrunc = true
+					}
+				}
+				isZero := a.k == kInt && a.i == 0
+				if !isTrunc && !isZero {
+					bads = append(bads, "the start of the covered slots is neither 0 nor the truncated time of the first finer point")
+					continue
+				}
+				haveFiner, knownFiner := false, false
+				rel := map[int]bool{-1: true, 0: true, 1: true} // sign of first finer time - this archive's until
+				for k, chosen := range l.atoms {
+					v, neg := stripNot(l.atomVal[k])
+					bo, ok := v.(*ssa.BinOp)
+					if !ok {
+						continue
+					}
+					want := chosen != neg
+					if (bo.Op == token.NEQ || bo.Op == token.EQL) && (isNilConst(bo.X) || isNilConst(bo.Y)) {
+						haveFiner, knownFiner = want == (bo.Op == token.NEQ), true
+						continue
+					}
+					if l2, emptyWhenTrue, ok := lenEmptyCond(v); ok && stripChangeType(l2.Common().Args[0]) == ssa.Value(hp) {
+						haveFiner, knownFiner = want != emptyWhenTrue, true
+						continue
+					}
+					if !isCmp(bo.Op) {
+						continue
+					}
+					isFirst := func(x ssa.Value) bool {
+						return strings.HasSuffix(newExprCtx(w).expr(x), "[0].Time") && elemOfParam(x, hp)
+					}
+					isUntil := func(x ssa.Value) bool {
+						return newExprCtx(w).expr(x) == "whispertool.Timestamp.Truncate(p6, p0.secondsPerPoint)"
+					}
+					flip := 0
+					switch {
+					case isFirst(bo.X) && isUntil(bo.Y):
+						flip = 1
+					case isFirst(bo.Y) && isUntil(bo.X):
+						flip = -1
+					default:
+						continue
+					}
+					for sg := -1; sg <= 1; sg++ {
+						if signOK(bo.Op, sg*flip) != want {
+							delete(rel, sg)
+						}
+					}
+				}
+				if isTrunc {
+					sawTrunc = true
+					if !(knownFiner && haveFiner) {
+						bads = append(bads, "the first finer point is used without knowing there is one")
+					}
+					if rel[1] {
+						bads = append(bads, "slots are treated as covered although the finer points may start after this archive's until")
+					}
+				} else if knownFiner && haveFiner && !rel[0] && !rel[1] {
+					bads = append(bads, "no slot is treated as covered although finer points exist and start before this archive's until: every coarser value is plain random")
+				}
+			}
+			if len(bads) == 0 && !sawTrunc {
+				bads = append(bads, "no path takes the start of the covered slots from the finer points")
+			}
+		}
+		sort.Strings(bads)
+		first := ""
+		if len(bads) > 0 {
+			first = bads[0]
+		}
+		r.Check(len(bads) == 0, rule, key, w.pos(f.Pos()), "covered slots start at the truncated time of the first finer point iff finer points exist and start before until", "randomPoints: "+first+" — a coarser slot covered by finer slots no longer equals their sum")
+	}
+}
+
+// ruleUntilDefault (decision diagram): in a command body the `until` handed to the reader is the command's Until
+// when that is set, and the clock reading when it is 0 — decided on every path from the entry to the first use.
+func ruleUntilDefault(w *World, r *Report, rule string, f *ssa.Function, readers []*ssa.Function) {
+	key := funcName(f) + ":until-default"
+	isReader := func(sc *ssa.Function) bool {
+		for _, rd := range readers {
+			if rd != nil && sc == rd {
+				return true
+			}
+		}
+		return false
+	}
+	// the variable: the argument bound to the reader's parameter named until, traced into f
+	var uAlloc *ssa.Alloc
+	var uPhi *ssa.Phi
+	var nReads int
+	for _, g := range withLiterals(f) {
+		for _, c := range callsIn(g) {
+			sc := c.Common().StaticCallee()
+			if sc == nil || !isReader(sc) {
+				continue
+			}
+			ps := sc.Signature.Params()
+			for i := 0; i < ps.Len() && i < len(c.Common().Args); i++ {
+				if ps.At(i).Name() != "until" {
+					continue
+				}
+				nReads++
+				v := c.Common().Args[i]
+				if u, ok := v.(*ssa.UnOp); ok && u.Op == token.MUL {
+					v = u.X
+				}
+				switch x := v.(type) {
+				case *ssa.Alloc:
+					uAlloc = x
+				case *ssa.Phi:
+					uPhi = x
+				case *ssa.FreeVar:
+					// the parent's variable bound to this free variable
+					for p := g; p != nil && uAlloc == nil; p = p.Parent() {
+						for _, mc := range makeClosuresOf(p.Parent(), p) {
+							for j, fv := range p.FreeVars {
+								if fv == x && j < len(mc.Bindings) {
+									if al, ok := mc.Bindings[j].(*ssa.Alloc); ok {
+										uAlloc = al
+									}
+								}
+							}
+						}
+						break
+					}
+				}
+			}
+		}
+	}
+	if nReads == 0 {
+		r.Undecided(rule, key, w.pos(f.Pos()), "no read with an until argument found")
+		return
+	}
+	if uAlloc == nil && uPhi == nil {
+		r.Undecided(rule, key, w.pos(f.Pos()), "the until argument is not a local variable of the command body")
+		return
+	}
+	if (uAlloc != nil && uAlloc.Parent() != f) || (uPhi != nil && uPhi.Parent() != f) {
+		r.Undecided(rule, key, w.pos(f.Pos()), "the until variable does not belong to the command body")
+		return
+	}
+	// first use: the first instruction of f that reads the variable other than a comparison
+	var useBlock *ssa.BasicBlock
+	var useInstr ssa.Instruction
+	for _, b := range f.DomPreorder() {
+		for _, in := range b.Instrs {
+			uses := false
+			switch x := in.(type) {
+			case *ssa.MakeClosure:
+				for _, bd := range x.Bindings {
+					if uAlloc != nil && bd == ssa.Value(uAlloc) {
+						uses = true
+					}
+				}
+			case *ssa.Call:
+				for _, a := range x.Common().Args {
+					if u, ok := a.(*ssa.UnOp); ok && u.Op == token.MUL && uAlloc != nil && u.X == ssa.Value(uAlloc) {
+						uses = true
+					}
+					if uPhi != nil && a == ssa.Value(uPhi) {
+						uses = true
+					}
+				}
+			}
+			if uses && useBlock == nil {
+				useBlock, useInstr = b, in
+			}
+		}
+	}
+	if useBlock == nil {
+		r.Undecided(rule, key, w.pos(f.Pos()), "no use of the until variable found")
+		return
+	}
+	if uPhi != nil && uPhi.Block() == useBlock {
+		// stop after the phi has been evaluated: use the block's first successor-free point — evaluate to the block and read the phi by edge
+	}
+	e := &ddEngine{w: w, env: map[ssa.Value]aval{}, maxLeafs: 64}
+	e.stopInstr = func(in ssa.Instruction) bool { return in == useInstr }
+	e.run(f)
+	var bads []string
+	if e.err != nil {
+		bads = append(bads, "cannot evaluate: "+e.err.Error())
+	}
+	isUntilField := func(v ssa.Value) bool {
+		return newExprCtx(w).expr(v) == "p0.Until"
+	}
+	isClock := func(v ssa.Value) bool {
+		c, ok := v.(*ssa.Call)
+		return ok && c.Common().StaticCallee() != nil && funcName(c.Common().StaticCallee()) == "whispertool.TimestampFromStdTime"
+	}
+	for _, l := range e.leaves {
+		if l.stop == nil || l.st == nil {
+			continue // returned before reading
+		}
+		var a aval
+		if uAlloc != nil {
+			var ok bool
+			if a, ok = l.st.mem[uAlloc]; !ok {
+				bads = append(bads, "until is read before it is assigned")
+				continue
+			}
+		} else {
+			a = e.value(l.st, uPhi)
+		}
+		zero := map[int]bool{0: true, 1: true} // sign of c.Until - 0 (unsigned)
+		for k, chosen := range l.atoms {
+			v, neg := stripNot(l.atomVal[k])
+			bo, ok := v.(*ssa.BinOp)
+			if !ok || !isCmp(bo.Op) {
+				continue
+			}
+			flip := 0
+			isZero := func(x ssa.Value) bool { k, ok := constInt(x); return ok && k == 0 }
+			untilLike := func(x ssa.Value) bool {
+				if isUntilField(x) {
+					return true
+				}
+				// a copy of the field held in the variable itself
+				if xa := e.value(l.st, x); xa.k == kSym && xa.sym != nil && isUntilField(xa.sym) {
+					return true
+				}
+				return false
+			}
+			switch {
+			case untilLike(bo.X) && isZero(bo.Y):
+				flip = 1
+			case untilLike(bo.Y) && isZero(bo.X):
+				flip = -1
+			default:
+				continue
+			}
+			for sg := 0; sg <= 1; sg++ {
+				if signOK(bo.Op, sg*flip) != (chosen != neg) {
+					delete(zero, sg)
+				}
+			}
+		}
+		switch {
+		case a.k == kSym && a.sym != nil && isClock(a.sym):
+			if zero[1] {
+				bads = append(bads, "the clock reading replaces a requested Until (Until may be non-zero on this path)")
+			}
+		case a.k == kSym && a.sym != nil && isUntilField(a.sym):
+			if zero[0] {
+				bads = append(bads, "Until is used although it may be 0 (no default to the clock reading on this path): the window ends at the epoch")
+			}
+		default:
+			bads = append(bads, "until is neither the command's Until nor the clock reading ("+a.String()+")")
+		}
+	}
+	sort.Strings(bads)
+	first := ""
+	if len(bads) > 0 {
+		first = bads[0]
+	}
+	r.Check(len(bads) == 0, rule, key, w.pos(f.Pos()), "until = Until if set, else the clock reading", funcName(f)+": "+first+" — the command does not work on the requested window")
+}
+
+// makeClosuresOf: the MakeClosure instructions in parent that create g.
+func makeClosuresOf(parent, g *ssa.Function) []*ssa.MakeClosure {
+	var out []*ssa.MakeClosure
+	if parent == nil {
+		return nil
+	}
+	eachInstr(parent, func(in ssa.Instruction) {
+		if mc, ok := in.(*ssa.MakeClosure); ok && mc.Fn == ssa.Value(g) {
+			out = append(out, mc)
+		}
+	})
+	return out
+}
+
+// ruleDestPathDefault (decision diagram): the single-file call oneFile(c.SrcRelPath, dest, …) of a copy/diff command
+// passes DestRelPath as dest when it is set and SrcRelPath when it is empty.
+func ruleDestPathDefault(w *World, r *Report, rule string, f, oneFile *ssa.Function) {
+	key := funcName(f) + ":dest-path-default"
+	if f == nil || oneFile == nil {
+		r.Undecided(rule, key, "-", "command body or per-file function not found")
+		return
+	}
+	ex := newExprCtx(w)
+	var call *ssa.Call
+	for _, c := range callsTo(f, oneFile) {
+		if c.Parent() == f && len(c.Common().Args) >= 3 && ex.expr(c.Common().Args[1]) == "p0.SrcRelPath" {
+			call = c
+		}
+	}
+	if call == nil {
+		r.Undecided(rule, key, w.pos(f.Pos()), "no single-file call "+funcName(oneFile)+"(c.SrcRelPath, …) found")
+		return
+	}
+	dest := call.Common().Args[2]
+	var al *ssa.Alloc
+	if u, ok := dest.(*ssa.UnOp); ok && u.Op == token.MUL {
+		al, _ = u.X.(*ssa.Alloc)
+	}
+	e := &ddEngine{w: w, env: map[ssa.Value]aval{}, maxLeafs: 64}
+	e.stop = func(b *ssa.BasicBlock) bool { return b == call.Block() || isLoopHeader(b) } // the glob loop is another mode
+	e.run(f)
+	var bads []string
+	if e.err != nil {
+		bads = append(bads, "cannot evaluate: "+e.err.Error())
+	}
+	reached := false
+	for _, l := range e.leaves {
+		if l.stop != call.Block() || l.st == nil || len(l.path) < 2 {
+			continue
+		}
+		reached = true
+		var a aval
+		switch {
+		case al != nil:
+			a = l.st.mem[al]
+		default:
+			a = aval{k: kSym, sym: dest}
+			if ph, ok := dest.(*ssa.Phi); ok {
+				if ph.Block() == call.Block() {
+					prev := l.path[len(l.path)-2]
+					for i, p := range ph.Block().Preds {
+						if p == prev {
+							a = e.value(l.st, ph.Edges[i])
+						}
+					}
+				} else {
+					a = e.value(l.st, ph)
+				}
+			}
+		}
+		// is DestRelPath known empty / non-empty on this path?
+		empty, known := false, false
+		for k, chosen := range l.atoms {
+			v, neg := stripNot(l.atomVal[k])
+			bo, ok := v.(*ssa.BinOp)
+			if !ok || (bo.Op != token.EQL && bo.Op != token.NEQ) {
+				if lc, emptyWhenTrue, ok2 := lenEmptyCond(v); ok2 && ex.expr(lc.Common().Args[0]) == "p0.DestRelPath" {
+					empty, known = (chosen != neg) == emptyWhenTrue, true
+				}
+				continue
+			}
+			x, y := bo.X, bo.Y
+			if s, ok := constString(x); ok && s == "" {
+				x, y = y, x
+			}
+			if s, ok := constString(y); !ok || s != "" || ex.expr(x) != "p0.DestRelPath" {
+				continue
+			}
+			empty, known = (chosen != neg) == (bo.Op == token.EQL), true
+		}
+		got := "?"
+		if a.k == kSym && a.sym != nil {
+			got = ex.expr(a.sym)
+		} else if a.k == kStr {
+			got = fmt.Sprintf("%q", a.s)
+		}
+		switch {
+		case !known:
+			bads = append(bads, "the destination path is chosen without testing whether DestRelPath is empty")
+		case empty && got != "p0.SrcRelPath":
+			bads = append(bads, "with an empty DestRelPath the destination path is "+got+", not SrcRelPath")
+		case !empty && got != "p0.DestRelPath":
+			bads = append(bads, "with DestRelPath set the destination path is "+got+", not DestRelPath")
+		}
+	}
+	if !reached && len(bads) == 0 {
+		bads = append(bads, "the single-file call is not reached")
+	}
+	sort.Strings(bads)
+	first := ""
+	if len(bads) > 0 {
+		first = bads[0]
+	}
+	r.Check(len(bads) == 0, rule, key, w.instrPos(call), "dest = DestRelPath if set, else SrcRelPath; source = SrcRelPath", funcName(f)+": "+first+" — the command works on another file than the one named")
+}
+
+// ruleLoopGoesOn: the loop around `anchor` (a call made once per element) is left only when the elements are
+// exhausted (from the loop header) or through a block that cannot get to the code after the loop (a failing return).
+// A `break` — an edge from the body to where the header's exit leads — skips the remaining elements.
+func ruleLoopGoesOn(w *World, r *Report, rule, key string, anchor ssa.Instruction, why string) {
+	if anchor == nil {
+		r.Undecided(rule, key, "-", "per-element call not found")
+		return
+	}
+	b0 := anchor.Block()
+	var header *ssa.BasicBlock
+	for b := b0; b != nil; b = b.Idom() {
+		if isLoopHeader(b) {
+			header = b
+			break
+		}
+	}
+	if header == nil {
+		r.Violate(rule, key, w.instrPos(anchor), "the per-element call is not inside a loop: "+why)
+		return
+	}
+	// natural loop of header: blocks dominated by it from which it is reachable
+	reach := func(from, to *ssa.BasicBlock) bool {
+		seen := map[*ssa.BasicBlock]bool{}
+		var walk func(b *ssa.BasicBlock) bool
+		walk = func(b *ssa.BasicBlock) bool {
+			if b == to {
+				return true
+			}
+			if seen[b] {
+				return false
+			}
+			seen[b] = true
+			for _, s := range b.Succs {
+				if walk(s) {
+					return true
+				}
+			}
+			return false
+		}
+		for _, s := range from.Succs {
+			if walk(s) {
+				return true
+			}
+		}
+		return false
+	}
+	inLoop := map[*ssa.BasicBlock]bool{header: true}
+	for _, b := range header.Parent().Blocks {
+		if header.Dominates(b) && reach(b, header) {
+			inLoop[b] = true
+		}
+	}
+	var exits []*ssa.BasicBlock // where the header itself leaves the loop
+	for _, s := range header.Succs {
+		if !inLoop[s] {
+			exits = append(exits, s)
+		}
+	}
+	bad := ""
+	for b := range inLoop {
+		if b == header {
+			continue
+		}
+		for _, s := range b.Succs {
+			if inLoop[s] {
+				continue
+			}
+			for _, e := range exits {
+				if s == e || reach(s, e) {
+					bad = "leaves the loop early at " + w.blockPos(b) + " and carries on after it"
+				}
+			}
+			if len(exits) == 0 {
+				// the header never exits by itself (for { … }): any exit not ending in a failure is an early stop
+				idx := errResultIndex(header.Parent())
+				if ret := pathAvoidingTo(s, func(ssa.Instruction) bool { return false }, func(ret *ssa.Return) bool { return idx >= 0 && isNilConst(ret.Results[idx]) }); ret != nil {
+					bad = "leaves the loop at " + w.blockPos(b) + " with success"
+				}
+			}
+		}
+	}
+	r.Check(bad == "", rule, key, w.instrPos(anchor), "the loop is left only when its elements are exhausted or by a failing return", "the loop around this call "+bad+": "+why)
+}
+
+func firstCallTo(f *ssa.Function, callee *ssa.Function) ssa.Instruction {
+	if f == nil || callee == nil {
+		return nil
+	}
+	for _, c := range callsTo(f, callee) {
+		if c.Parent() == f {
+			return c
+		}
+	}
+	return nil
+}
+
+// firstLoopCall: the call of callee in f that sits inside a loop.
+func firstLoopCall(f, callee *ssa.Function) ssa.Instruction {
+	if f == nil || callee == nil {
+		return nil
+	}
+	for _, c := range callsTo(f, callee) {
+		if c.Parent() == f && inLoopWith(c.Block()) {
+			return c
+		}
+	}
+	return nil
+}
+
+// ruleTextOutFinish: every success return of newTextOutWriter hands back a finish function (never nil: it is called
+// unconditionally), and the finish of the file case flushes the buffered writer on every path to its success return
+// and passes a flush failure on.
+func ruleTextOutFinish(w *World, r *Report, rule string) {
+	f := fn(w.Cmd, "newTextOutWriter")
+	if f == nil {
+		r.Undecided(rule, "newTextOutWriter:finish", "-", "newTextOutWriter not found")
+		return
+	}
+	idx := errResultIndex(f)
+	bad := ""
+	var fileFinish *ssa.Function
+	for _, ret := range returnsOf(f) {
+		if idx < 0 || len(ret.Results) != 3 {
+			bad = "unexpected result shape"
+			continue
+		}
+		vals, complete := resultValues(ret, 1)
+		if !complete || len(vals) == 0 {
+			bad = "the finish result at " + w.instrPos(ret) + " cannot be determined"
+			continue
+		}
+		for _, v := range vals {
+			switch x := stripChangeType(v).(type) {
+			case *ssa.Function:
+			case *ssa.MakeClosure:
+				fileFinish, _ = x.Fn.(*ssa.Function)
+			default:
+				evs, _ := resultValues(ret, idx)
+				success := false
+				for _, ev := range evs {
+					if classifyErr(ev).class == errNil {
+						success = true
+					}
+				}
+				if success {
+					bad = "a success return (" + w.instrPos(ret) + ") hands back no finish function (" + newExprCtx(w).expr(v) + "): withTextOutWriter calls it unconditionally and panics"
+				}
+			}
+		}
+	}
+	r.Check(bad == "", rule, "newTextOutWriter:finish-non-nil", w.pos(f.Pos()), "every success return carries a finish function", "newTextOutWriter: "+bad)
+	if fileFinish == nil {
+		r.Undecided(rule, "newTextOutWriter:finish-flushes", w.pos(f.Pos()), "the finish closure of the file case was not found")
+		return
+	}
+	isFlush := func(in ssa.Instruction) bool {
+		c, ok := in.(*ssa.Call)
+		return ok && isMethodCall(c, "bufio", "Writer", "Flush")
+	}
+	bad = ""
+	fidx := errResultIndex(fileFinish)
+	if ret := pathAvoidingTo(fileFinish.Blocks[0], isFlush, func(ret *ssa.Return) bool { return fidx >= 0 && isNilConst(ret.Results[fidx]) }); ret != nil {
+		bad = "can report success without flushing the buffered writer: the text output never reaches the file"
+	}
+	if bad == "" {
+		for _, b := range fileFinish.Blocks {
+			for _, in := range b.Instrs {
+				if c, ok := in.(*ssa.Call); ok && isFlush(in) {
+					if msg := checkErrorHandled(w, c); msg != "" {
+						bad = "does not pass a flush failure on (" + msg + ")"
+					}
+				}
+			}
+		}
+	}
+	r.Check(bad == "", rule, "newTextOutWriter:finish-flushes", w.pos(fileFinish.Pos()), "finish flushes before reporting success and passes a flush failure on", "the finish function of a -text-out file "+bad)
+}
+
+// ruleFlagSetStores: each flag.Value of the command line (timestamp, file mode, aggregation method, xFilesFactor,
+// retention list) stores what it parsed into the option it was registered for on every path to its success return.
+func ruleFlagSetStores(w *World, r *Report, rule string) {
+	for _, tn := range []string{"timestampValue", "fileModeValue", "aggregationMethodValue", "xFilesFactorValue", "archiveInfoListValue"} {
+		key := "cmd." + tn + ".Set:stores"
+		f := fn(w.Cmd, tn+".Set")
+		if f == nil || len(f.Params) != 2 {
+			r.Undecided(rule, key, "-", tn+".Set not found")
+			continue
+		}
+		// the parsed value: result #0 of a call that takes the string parameter
+		derives := func(v ssa.Value) bool {
+			found := false
+			var rec func(v ssa.Value, d int)
+			rec = func(v ssa.Value, d int) {
+				if d > 6 || found {
+					return
+				}
+				switch x := v.(type) {
+				case *ssa.Extract:
+					if c, ok := x.Tuple.(*ssa.Call); ok && x.Index == 0 {
+						for _, a := range c.Common().Args {
+							if a == ssa.Value(f.Params[1]) {
+								found = true
+							}
+						}
+					}
+				case *ssa.Convert:
+					rec(x.X, d+1)
+				case *ssa.ChangeType:
+					rec(x.X, d+1)
+				case *ssa.Call:
+					for _, a := range x.Common().Args {
+						rec(a, d+1)
+					}
+				}
+			}
+			rec(v, 0)
+			return found
+		}
+		isStore := func(in ssa.Instruction) bool {
+			st, ok := in.(*ssa.Store)
+			if !ok {
+				return false
+			}
+			// *v.<field> = parsed
+			u, ok := st.Addr.(*ssa.UnOp)
+			if !ok || u.Op != token.MUL {
+				if fld, ok2 := st.Addr.(*ssa.Field); !ok2 || fld.X != ssa.Value(f.Params[0]) {
+					return false
+				}
+			} else if !strings.HasPrefix(newExprCtx(w).expr(u.X), "&p0.") && !strings.HasPrefix(newExprCtx(w).expr(u), "p0.") {
+				return false
+			}
+			return derives(st.Val)
+		}
+		idx := errResultIndex(f)
+		ret := pathAvoidingTo(f.Blocks[0], isStore, func(ret *ssa.Return) bool { return idx >= 0 && isNilConst(ret.Results[idx]) })
+		r.Check(ret == nil, rule, key, w.pos(f.Pos()), "every success return is preceded by the store of the parsed value into the option", tn+".Set can report success without storing the parsed value into the option it belongs to: the option given on the command line is ignored")
+	}
+}
+
+// ruleGenerateChain (decision diagram): randomPointsList, evaluated for two archives, calls randomPoints for archive 0
+// with no finer data, and for archive 1 with archive 0 as the finer archive, the points just generated for it and its
+// value bound; each archive's value bound is the requested maximum scaled by step_k / step_0.
+func ruleGenerateChain(w *World, r *Report, rule string) {
+	const key = "cmd.randomPointsList:chain"
+	f, rp := fn(w.Cmd, "randomPointsList"), fn(w.Cmd, "randomPoints")
+	if f == nil || rp == nil || len(f.Params) != 5 {
+		r.Undecided(rule, key, "-", "randomPointsList or randomPoints not found")
+		return
+	}
+	type rec struct {
+		rIdx                     string
+		highRet, highPts, highMx aval
+		rndMax                   ssa.Value
+		c                        *ssa.Call
+	}
+	var calls []rec
+	e := &ddEngine{w: w, env: lenEnv(f, map[int]int64{0: 2}), maxLeafs: 8, concreteAtoms: true}
+	e.onCall = func(s *ddState, c *ssa.Call) {
+		if c.Common().StaticCallee() != rp || len(c.Common().Args) != 8 {
+			return
+		}
+		as := c.Common().Args
+		calls = append(calls, rec{rIdx: e.keyOf(s, as[0]), highRet: e.value(s, as[1]), highPts: e.value(s, as[2]), highMx: e.value(s, as[5]), rndMax: as[4], c: c})
+	}
+	e.run(f)
+	var bads []string
+	if e.err != nil {
+		bads = append(bads, "cannot evaluate: "+e.err.Error())
+	}
+	if len(e.leaves) != 1 || len(calls) != 2 {
+		bads = append(bads, fmt.Sprintf("for two archives randomPoints is called %d times on %d paths (expected once per archive)", len(calls), len(e.leaves)))
+	} else {
+		for k, c := range calls {
+			m := reFirstIndex.FindStringSubmatch(c.rIdx)
+			if m == nil || m[1] != strconv.Itoa(k) || !strings.Contains(c.rIdx, "$"+f.Params[0].Name()) {
+				bads = append(bads, fmt.Sprintf("call %d generates for %s, not for archive %d", k, c.rIdx, k))
+			}
+			// the value bound: requested maximum * step_k / step_0 — one division, by archive 0's step
+			ex := newExprCtx(w)
+			nQuo, nOther, byStep0, hasMax, hasStepK := 0, 0, false, false, false
+			var walk func(v ssa.Value, d int)
+			walk = func(v ssa.Value, d int) {
+				if d > 8 {
+					return
+				}
+				switch x := v.(type) {
+				case *ssa.BinOp:
+					switch x.Op {
+					case token.QUO:
+						nQuo++
+						if s := ex.expr(x.Y); s == "p0[0].secondsPerPoint" {
+							byStep0 = true
+						}
+					case token.MUL:
+					default:
+						nOther++
+					}
+					walk(x.X, d+1)
+					walk(x.Y, d+1)
+				case *ssa.Convert:
+					walk(x.X, d+1)
+				case *ssa.ChangeType:
+					walk(x.X, d+1)
+				default:
+					s := ex.expr(v)
+					if v == ssa.Value(f.Params[2]) {
+						hasMax = true
+					}
+					if strings.HasPrefix(s, "p0[") && strings.HasSuffix(s, ".secondsPerPoint") && s != "p0[0].secondsPerPoint" {
+						hasStepK = true
+					}
+				}
+			}
+			walk(c.rndMax, 0)
+			if k == 0 && !(nQuo == 1 && nOther == 0 && byStep0 && hasMax && hasStepK) {
+				bads = append(bads, "the value bound of an archive is "+ex.expr(c.rndMax)+", not the requested maximum * step / (archive 0's step)")
+			}
+			isNone := func(a aval) bool { return a.k == kNil || (a.k == kInt && a.i == 0) }
+			if k == 0 {
+				if !isNone(c.highRet) || !isNone(c.highPts) || !isNone(c.highMx) {
+					bads = append(bads, "archive 0 is generated as if it had a finer archive")
+				}
+				continue
+			}
+			if !(c.highRet.k == kSym && c.highRet.sym != nil && elemOfParam(c.highRet.sym, f.Params[0])) {
+				bads = append(bads, "archive 1 is generated without archive 0 as its finer archive")
+			}
+			okPts := false
+			if c.highPts.k == kSym && c.highPts.sym != nil {
+				if c.highPts.sym == ssa.Value(c.c) {
+					okPts = true
+				}
+				if u, ok := c.highPts.sym.(*ssa.UnOp); ok {
+					if ia, ok := u.X.(*ssa.IndexAddr); ok {
+						if _, ok := stripChangeType(ia.X).(*ssa.MakeSlice); ok {
+							okPts = true
+						}
+					}
+				}
+			}
+			if !okPts {
+				bads = append(bads, "archive 1 is generated without the points just generated for archive 0: its values are plain random numbers, not sums")
+			}
+			if !(c.highMx.k == kSym && c.highMx.sym == c.rndMax) {
+				bads = append(bads, "archive 1 is generated without archive 0's value bound")
+			}
+		}
+	}
+	sort.Strings(bads)
+	first := ""
+	if len(bads) > 0 {
+		first = bads[0]
+	}
+	r.Check(len(bads) == 0, rule, key, w.pos(f.Pos()), "each archive is generated from the one before it; value bound = max * step / step_0", "randomPointsList: "+first)
+}
+
+var reLabelVerb = regexp.MustCompile(`(\w+):%[a-zA-Z]`)
+
+// ruleHeaderStringFields: every `label:%verb` of the two lines Header.String prints is fed from the header field the
+// label names (the archive line: index, step, point count, offset of the same archive).
+func ruleHeaderStringFields(w *World, r *Report, rule string) {
+	const key = "whispertool.Header.String:fields"
+	f := fn(w.Lib, "Header.String")
+	if f == nil {
+		r.Undecided(rule, key, "-", "Header.String not found")
+		return
+	}
+	want := map[string]string{"aggMethod": "aggregationMethod", "aggMethodNum": "aggregationMethod", "maxRetention": "maxRetention", "xFileFactor": "xFilesFactor",
+		"archiveCount": "archiveCount", "archiveInfo": "#index", "durationPerPoint": "secondsPerPoint", "numberOfPoints": "numberOfPoints", "offset": "offset"}
+	seen := map[string]bool{}
+	var bads []string
+	for _, c := range callsIn(f) {
+		if !isCallToPkgFunc(c, "fmt", "Fprintf") && !isCallToPkgFunc(c, "fmt", "Sprintf") {
+			continue
+		}
+		as := c.Common().Args
+		fi := 0
+		if isCallToPkgFunc(c, "fmt", "Fprintf") {
+			fi = 1
+		}
+		format, ok := constString(as[fi])
+		if !ok {
+			continue
+		}
+		labels := reLabelVerb.FindAllStringSubmatch(format, -1)
+		args := varargElems(as[fi+1])
+		if len(labels) != len(args) {
+			bads = append(bads, fmt.Sprintf("the line %q has %d labelled verbs but %d arguments", format, len(labels), len(args)))
+			continue
+		}
+		idxOf := ""
+		for i, l := range labels {
+			exp, known := want[l[1]]
+			if !known {
+				continue
+			}
+			seen[l[1]] = true
+			s := newExprCtx(w).expr(args[i])
+			if exp == "#index" {
+				idxOf = s
+				continue
+			}
+			if !strings.Contains(s, "."+exp) {
+				bads = append(bads, fmt.Sprintf("%s: is printed from %s, not from the header's %s", l[1], s, exp))
+			}
+			if idxOf != "" && strings.Contains(s, "archiveInfoList[") && !strings.Contains(s, "archiveInfoList["+idxOf+"]") {
+				bads = append(bads, fmt.Sprintf("%s: is taken from another archive than the one numbered on the line (%s vs index %s)", l[1], s, idxOf))
+			}
+		}
+	}
+	for l := range want {
+		if !seen[l] {
+			bads = append(bads, "the header line no longer carries "+l+":")
+		}
+	}
+	sort.Strings(bads)
+	first := ""
+	if len(bads) > 0 {
+		first = bads[0]
+	}
+	r.Check(len(bads) == 0, rule, key, w.pos(f.Pos()), "each labelled value of the header lines comes from the field its label names", "Header.String: "+first+" — view and view-raw show a header that is not the stored one")
+}
+
+// varargElems: the values stored into the slice literal passed as a variadic argument, in order.
+func varargElems(v ssa.Value) []ssa.Value {
+	sl, ok := v.(*ssa.Slice)
+	if !ok {
+		return nil
+	}
+	al, ok := sl.X.(*ssa.Alloc)
+	if !ok {
+		return nil
+	}
+	m := map[int64]ssa.Value{}
+	for _, ref := range *al.Referrers() {
+		ia, ok := ref.(*ssa.IndexAddr)
+		if !ok {
+			continue
+		}
+		k, ok := constInt(ia.Index)
+		if !ok {
+			continue
+		}
+		for _, r2 := range *ia.Referrers() {
+			if st, ok := r2.(*ssa.Store); ok && st.Addr == ssa.Value(ia) {
+				m[k] = stripMakeInterface(st.Val)
+			}
+		}
+	}
+	var out []ssa.Value
+	for i := int64(0); i < int64(len(m)); i++ {
+		out = append(out, m[i])
+	}
+	return out
+}
+
+var reBaseName = regexp.MustCompile(`(?i)base`)
+
+// rulePathOrder: wherever package cmd composes a file path with filepath.Join, the base directory (a parameter or
+// field whose name says base) is the first element — on the server as on the local side, so that both resolve a
+// relative path against the same directory.
+func rulePathOrder(w *World, r *Report, rule string) {
+	n := 0
+	for _, f := range w.modFuncs {
+		if pkgOf(f) != w.Cmd {
+			continue
+		}
+		for _, c := range callsIn(f) {
+			if !isCallToPkgFunc(c, "path/filepath", "Join") {
+				continue
+			}
+			elems := varargElems(c.Common().Args[0])
+			if len(elems) < 2 {
+				continue
+			}
+			isBase := func(v ssa.Value) bool {
+				switch x := v.(type) {
+				case *ssa.Parameter:
+					return reBaseName.MatchString(x.Name())
+				case *ssa.UnOp:
+					if fa, ok := x.X.(*ssa.FieldAddr); ok {
+						if st, ok := deref(fa.X.Type()).Underlying().(*types.Struct); ok {
+							return reBaseName.MatchString(st.Field(fa.Field).Name())
+						}
+					}
+					if fv, ok := x.X.(*ssa.FreeVar); ok {
+						return reBaseName.MatchString(fv.Name())
+					}
+				case *ssa.FreeVar:
+					return reBaseName.MatchString(x.Name())
+				}
+				return false
+			}
+			pos := -1
+			for i, e := range elems {
+				if isBase(e) {
+					pos = i
+				}
+			}
+			if pos < 0 {
+				continue
+			}
+			n++
+			r.Check(pos == 0 && isBase(elems[0]), rule, funcName(f)+":path-order", w.instrPos(c), "the base directory comes first in filepath.Join", funcName(f)+" joins a path with the base directory in position "+strconv.Itoa(pos)+": the file is looked up relative to the wrong directory ("+newExprCtx(w).expr(c.Common().Args[0])+")")
+		}
+	}
+	if n < 6 {
+		r.Undecided(rule, "path-order:floor", "-", fmt.Sprintf("only %d path compositions with a base directory found (8 confirmed by hand)", n))
+	}
+}
+
+func deref(t types.Type) types.Type {
+	if p, ok := t.Underlying().(*types.Pointer); ok {
+		return p.Elem()
+	}
+	return t
 }
